@@ -26,6 +26,8 @@ RULE = ('Each case has three parts. (a) TWIN WORLDS: a generated history (create
         '= specification function. (c) OnUpdateProcessor with 0-5 on_update listeners and generated dt objects. '
         ''
         'In ~6% of the cases OnUpdateProcessor runs 70-1100 frames on a disabled world, is enabled, and runs as many frames enabled. '
+        ''
+        'Query types of the query shorthands include an ABC the component classes are registered with and the runtime-checkable protocols of the library; processors assigned through references may carry a priority of their own. '
         'Non-trivial = (a) >= 3 entities and the queried type matches >= 2 or 0 components of the controller\'s '
         'entity, or (b) >= 2 different construction sources together with a subclass override. Distinct = sha1 '
         'of canonical JSON.')
